@@ -1500,10 +1500,13 @@ def check(tier, seed):
         'the parse() call counter, best-of-N timings',
         'modelled, not verified: UpdateCollection.split, AttributeCollection.parse, INET.unpack_nlri (ipv4 unicast), '
         'Open.unpack_message / Capabilities.unpack framing, Notification / KeepAlive / RouteRefresh / Operational '
-        'unpack_message (hand model Model_Robust); capability value decoders taken from Model_Open.parse_cap (C07)',
-        'NOT modelled (theorems hold for every value decoder that keeps the stated contract; the Python decoders are only '
-        'exercised, by the generated cases): the value decoders of registered attributes other than ORIGIN, MED, LOCAL_PREF, '
-        'ATOMIC_AGGREGATE, ORIGINATOR_ID; every MP NLRI decoder; AS_PATH / AS4_PATH merge; the API encoders',
+        'unpack_message (hand model Model_Robust); AIGPBase.from_packet (Model_RobustInst); capability value decoders = '
+        'Model_Open.parse_cap (C07) and attribute value decoders = Model_Update.unpack_value (C02/C08), both PROVED to keep '
+        'the contract the C03 theorems need (C03_capability_decoders_keep_contract, C03_attribute_decoders_keep_contract)',
+        'NOT modelled (the theorems hold for every such decoder that keeps the stated contract; the Python decoders are only '
+        'exercised, by the generated cases): the value decoders of PMSI, TUNNEL_ENCAP, BGP-LS, PREFIX_SID; the NLRI decoders '
+        'that read the routes inside MP_REACH / MP_UNREACH; UTF-8 validity of host name / software version capabilities; '
+        'the API encoders',
     ]
     run.assumptions = [
         'the body handed to Message.unpack is at most the negotiated message size minus 19 (the reader enforces it: C06)',
@@ -1526,6 +1529,16 @@ def check(tier, seed):
         '(n unknown optional attributes need n+1 Python frames)',
     )
 
+    try:
+        gen_text = open(common.os.path.join(common.GEN, 'Gen_AttrTable.v')).read()
+        extnh = 'Definition EXTNH_PER_FAMILY : bool := true.' in gen_text
+    except OSError:
+        extnh = False
+    run.obligation(
+        'hypothesis of C03_attribute_decoders_keep_contract / C03_only_defined_outcomes_instantiated: EXTNH_PER_FAMILY = true '
+        '(Gen_AttrTable, translator T5: MPRNLRI.unpack_attribute widens next hop lengths per family, no Family.size lookup that can raise KeyError)',
+        extnh, 'Gen_AttrTable.EXTNH_PER_FAMILY is not true in the tree under check',
+    )
     rng = random.Random(seed)
     t0 = time.time()
     valid = gen_valid(rng, tier)
@@ -1618,7 +1631,8 @@ def check(tier, seed):
     run.obligation('model evaluation (vm_compute of Model_Robust.dec_message / walk on every modelled case) ran', m_ok and s_ok, ('\n'.join(mlogs) + s_log)[-2500:])
     run.obligation(
         f'correspondence: outcome class (and code/subcode, NOTIFICATION / REFRESH / OPERATIONAL tag) of the implementation = '
-        f'Model_Robust.dec_message on {compared} bodies ({skipped} more reach an unmodelled value decoder and are not compared)',
+        f'Model_Robust.dec_message (value decoders: Model_Update.unpack_value, Model_Open.parse_cap, the AIGP walk) on {compared} bodies '
+        f'({skipped} more reach an opaque value decoder or carry routes in MP attributes and are not compared)',
         not differs,
         f'{len(differs)} disagreements, first: '
         + (str(describe(cases[differs[0]], outs[differs[0]], model_says='differs')) if differs else ''),
